@@ -16,7 +16,7 @@ CHECKS = {
     "C08": dict(
         engine="W-EVID",
         technique=TECH + "differential oracle (gate vs Validate() and vs non-validating sibling) evaluated inside Evidence/claims histories with codec faults",
-        text="Seeded exploration of histories in which claims-sets become invalid by construction, by later mutation or by an injected user-codec failure, and every validating gate (SetClaims, ValidateAndSign, validate-and-encode CBOR/JSON, three decode-and-validate variants) is compared with the real Validate() and its non-validating sibling. Differential, so no validation constant is mirrored.",
+        text="Seeded exploration of histories in which claims-sets become invalid by construction, by later mutation (setters or direct field edits) or by an injected user-codec failure, and every validating gate (SetClaims, ValidateAndSign, validate-and-encode CBOR/JSON, the decode-and-validate variants incl. the deprecated names) is compared with the real Validate() and its non-validating sibling; a shadow Evidence goes through the same history with the validating calls replaced by their plain counterparts and must stay indistinguishable (returned bytes, Verify verdicts) also after signer and codec faults; on odd run indices the decoder pairs are fed real messages damaged in flight or structurally mutated and re-signed. Differential, so no validation constant is mirrored.",
         note="Relative oracle: a change that moves a validation boundary consistently everywhere is (correctly) not reported here. Same trusted base as C19.",
         ref="DESIGN.md §4 C08"),
 }
@@ -57,7 +57,7 @@ CHECKS["C05"] = dict(
 CHECKS["C06"] = dict(
     engine="W-DEC",
     technique=TECH + "resource-budget invariant per decode call (TotalAlloc delta, executed-statement count from woven yield points, wall clock) in a memory-capped child process, over truncation / inflated-length / nesting / padding faults",
-    text="Same receiving-side world as C05, measured: around every decode call the child records heap bytes allocated (budget 1 MiB + 1 KiB per input byte, as the property states), library statements executed (T2 yield points; budget 5e6 + 500 per input byte, a load-independent stand-in for the 5 s deadline) and wall time (5 s); the child runs under a 4 GiB address-space cap, and its death or a 120 s hang is attributed to the journalled delivery and replayed in a fresh child. Faults that matter: truncation at every offset, every length head inflated to 2^8..2^64-1, nesting up to 10^5 levels, messages padded to 64 KiB.",
+    text="Same receiving-side world as C05, measured: around every decode call the child records heap bytes allocated (budget 1 MiB + 1 KiB per input byte, as the property states), library statements executed (T2 yield points; budget 5e6 + 500 per input byte, a load-independent stand-in for the 5 s deadline) and wall time (5 s); the child runs under a 4 GiB address-space cap, and its death or a 120 s hang is attributed to the journalled delivery and replayed in a fresh child. Faults that matter: truncation at every offset, every length head inflated to 2^8..2^64-1, nesting up to 10^5 levels (arrays, maps, tags, byte strings, deep-and-wide JSON), thousands of tiny members, messages padded to 64 KiB, floods of small documents followed by a live-heap comparison.",
     note="Sampling of the input space through fault kinds, not fuzzing. The statement budget is my own proxy for the wall deadline; its constants are far above linear behaviour. Nothing about speed is claimed.",
     ref="DESIGN.md §4 C06")
 
